@@ -66,5 +66,24 @@ fn main() {
         let st = dfs::explore(&cfg, &move || c16::run(t, raw, d));
         c.add_dfs(&part, &st);
     }
+    // Long sessions (ring indices wrap on both queues).
+    {
+        let frames = if args.tier == Tier::Quick { 70_000 } else { 200_000 };
+        let (n, v) = match vlab::util::catch(|| c16::run_linear(TKind::Model, frames)) {
+            Ok(r) => r,
+            Err(p) => {
+                if p.contains("LAB-LIVELOCK") || vlab::util::is_driver_panic(&p) {
+                    (1, vec![("linear-run".to_string(), format!("long session: {}", p))])
+                } else {
+                    c.machinery_error(format!("linear run: harness panic: {}", p));
+                    (0, vec![])
+                }
+            }
+        };
+        c.add_sweep(&format!("linear-run: one session of {} received frames (any posted buffer, recycled at once) and as many transmissions", frames), n, 1, true, vlab::util::J::obj());
+        for (k, d) in v {
+            c.add_violation(vlab::engine::Violation::new("C16", k, d.clone()), "linear-run", vlab::util::J::obj().set("kind", vlab::util::J::s("case")).set("case", vlab::util::J::s(d)), vec![]);
+        }
+    }
     c.finish();
 }
